@@ -265,6 +265,25 @@ def run(spec):
                          if ap in given and ap in again and not any(_same(again[ap], d) for d in defaults)}
                 V.check('composite_reusable', not stale,
                         lambda: ('second store built from the same Composite without initial state shows the first build\'s values (got, first build\'s value)', stale))
+                # the declarations may change between two builds (a schema override merged into the Composite):
+                # the next build follows the new declaration
+                targets = {}
+                for vp, ap in ref.items():
+                    targets.setdefault(ap, []).append(vp)
+                pick = [(vp, ap) for vp, ap in sorted(ref.items(), key=str)
+                        if len(vp) == 2 and len(targets[ap]) == 1 and isinstance(schema.get(vp[0]), dict) and
+                        isinstance(schema[vp[0]].get(vp[1]), dict) and '_default' in schema[vp[0]][vp[1]] and
+                        not ap[0].startswith('g') and list(ap) not in spec.get('owned', []) and len(cand.get(ap, [])) == 1]
+                if pick:
+                    vp, ap = pick[0]
+                    ov = {vp[0]: {vp[1]: {'_default': 4242}}}
+                    for k in reversed(ppath):
+                        ov = {k: ov}
+                    c.merge(schema_override=ov)
+                    third = flat(plain_values(c.generate_store({}).get_value()))
+                    V.check('composite_reusable', _same(third.get(ap), 4242),
+                            lambda: ('after a schema override changed the default of %s to 4242, a new store built from the '
+                                     'Composite holds %r' % ('/'.join(ap), third.get(ap))))
         except Exception as ex:
             import traceback
             V.check('declared_exists', False, ('construction through %s raised' % mode, type(ex).__name__, str(ex)[:200],
